@@ -166,6 +166,12 @@ def run(ctx):
             if path.end != "ret" or path.ret is None:
                 continue
             emp = [v for k, v in path.decisions if "BTreeSet" in k and "::is_empty(" in k and isinstance(v, bool)]
+            if not emp:
+                # the same question asked another way: `first()` / `iter().next()` / `last()` of the set is None
+                for k, v in path.decisions:
+                    if ("BTreeSet" in k or "btree" in k) and any(x in k for x in ("::first", "::last", "::next", "pop_first")) \
+                            and isinstance(v, tuple) and v[0] == "variant" and v[1] in ("None", "Some"):
+                        emp = [v[1] == "None"]
             ret = vkey(path.ret)
             if ret.startswith("residual("):
                 continue
